@@ -1,6 +1,6 @@
 import Model.Log
 /-!
-# Model.System — a system of replicas driven by appends, unbounded joins and identity changes
+# Model.System — a system of replicas driven by appends, unbounded joins, identity changes and rebuilds
 
 This is the state space the history-quantified theorems (C01–C05) range over: any number of
 replicas (of any number of logs and writers), any finite sequence of operations.  `uni` is the
@@ -15,6 +15,11 @@ inductive Op where
   | append (r : Nat) (pc : Int) (h : Hash) (tag : Nat)
   | join (r r2 : Nat)
   | setIdentity (r : Nat) (clockId : Bytes)
+  /-- a new replica built from replica `src` by the constructor (`NewLog` with `Entries`/`Heads`) or by a
+      loader: `ents` is what the caller or the fetch delivered — exactly the source's entries, in any
+      order, repetitions allowed (`C09.fetch_eq_source`: every accepted unbounded fetch delivers that);
+      `withHeads`: the source's heads are handed over (manifest, constructor) or recomputed -/
+  | rebuild (src : Nat) (clockId : Bytes) (ents : List Entry) (withHeads : Bool)
 deriving Repr
 
 structure Sys where
@@ -56,6 +61,14 @@ def Sys.step (s : Sys) : Op → Option Sys
     match s.logs r with
     | none => none
     | some l => some { s with logs := upd s.logs r (some (setIdentity l cid)) }
+  | .rebuild src cid ents wh =>
+    match s.logs src with
+    | none => none
+    | some l =>
+      if ents.all (fun e => l.entries.contains e) && l.entries.all (fun e => ents.contains e) then
+        some { s with logs := upd s.logs s.n (some (newLog l.id cid l.sortFn ents (if wh then l.heads else []))),
+                      know := upd s.know s.n (s.know src), n := s.n + 1 }
+      else none
 
 def Sys.run (s : Sys) : List Op → Option Sys
   | [] => some s
